@@ -193,8 +193,72 @@ RELEVANT = {"lexing": {"fnest", "fbrace"}, "logical": {"escq", "adjstr"}, "llf":
             "words": {"bsbr", "dotnum", "fquote"}, "lines": set(), "crash": set()}
 
 
-def sig_of(cls, feats):
+def explains(feat, text, facts, fail):
+    """Does the structural shape `feat` of the text sit where the failure `fail` is? (narrow masks: a failure elsewhere in a
+    text that merely contains a known shape is not attributed to the finding)"""
+    ob, off = fail[0], fail[1]
+    info = fail[3] if len(fail) > 3 else {}
+    line_of = lambda o: text.count("\n", 0, o) + 1
+    fstr = [(a, b, q, nested) for (a, b, q, nested) in facts.fstrings]
+    if feat == "fnest":
+        return any(nested and (a <= off <= b if ob == "regions" else off >= a) for (a, b, q, nested) in fstr)
+    if feat == "fbrace":
+        def unbalanced(a, b):
+            t = text[a:b]
+            return sum(t.count(c) for c in "([{") != sum(t.count(c) for c in ")]}")
+        return ob == "real_code" and any(unbalanced(a, b) and off >= a for (a, b, q, n) in fstr)
+    if feat in ("escq", "adjstr"):
+        r = info.get("range")
+        if r is None:
+            return False
+        spans = [(a, b, p) for (a, b, p, k) in facts.spans if k in "sf"]
+        for idx, (a, b, p) in enumerate(spans):
+            body = text[a:b][len(p or ""):]
+            if feat == "escq":
+                hit = body[:3] in ("'''", '"""') and len(body) >= 8 and body[3:-3].endswith(body[0]) and \
+                    (len(body[3:-4]) - len(body[3:-4].rstrip("\\"))) % 2 == 1
+            else:
+                hit = idx + 1 < len(spans) and spans[idx + 1][0] == b and body[:3] not in ("'''", '"""') and \
+                    text[b:b + 3] == body[0] * 3
+            if hit and r[0] <= line_of(b - 1) <= max(r[1], r[0]):
+                return True
+        return False
+    if feat == "blockish":
+        n, (a, b), got = info.get("line"), info.get("stmt", (0, 0)), info.get("got")
+        if n is None:
+            return False
+        if isinstance(got, tuple):
+            return a < got[0] <= b and bool(_BLOCKISH.match(facts.lines[got[0] - 1]))
+        return any(_BLOCKISH.match(facts.lines[i - 1]) for i in range(a + 1, b + 1))
+    span = info.get("span")
+    if span is None or ob != "primary":
+        return False
+    a, b = span
+    seg = text[a:b]
+    if feat == "bsbr":
+        return any(text[i] == "\\" and not in_any_span(facts, i) for i in range(a, b))
+    if feat == "dotnum":
+        toks = [t for t in facts.plain if a <= t[1] < b and t[0] not in (T.NL, T.COMMENT)]
+        return any(t2[0] == T.NUMBER and t2[3].startswith(".") and t1[0] == T.OP and t1[3] in "([{" for t1, t2 in zip(toks, toks[1:]))
+    if feat == "fquote":
+        for (fa, fb, q, nested) in fstr:
+            if a <= fa and fb <= b and not nested:
+                lit = text[fa:fb]
+                lit = lit[len(c14_oracle.string_prefix(lit)) + len(q):len(lit) - len(q)]
+                if q[0] in lit:
+                    return True
+        return False
+    return False
+
+
+def in_any_span(facts, i):
+    return any(a <= i < b for (a, b, p, k) in facts.spans)
+
+
+def sig_of(cls, feats, text=None, facts=None, fail=None):
     rel = sorted(set(feats) & RELEVANT.get(cls, set()))
+    if fail is not None:
+        rel = [f for f in rel if explains(f, text, facts, fail)]
     return "%s:%s" % (cls, "+".join(rel) or "plain")
 
 
@@ -218,7 +282,18 @@ def signature(obj):
     facts, obs, fails = run_oracle(text)
     if facts is None or not fails:
         return "none"
-    return sig_of(OBS_CLASS.get(fails[0][0], fails[0][0]), features(text, facts))
+    sig = sig_of(OBS_CLASS.get(fails[0][0], fails[0][0]), features(text, facts), text, facts, fails[0])
+    # where the model predicts the defect (Coq booleans lex_sane / shape_free, evaluated in the run that produced the
+    # object) or disagreed with rope on the case, the failure is only attributed when the prediction matches
+    flags = obj.get("model_flags")
+    if flags is not None:
+        if flags.get("model_mismatch"):
+            sig += "!model-and-rope-disagree"
+        elif sig.startswith("lexing:fnest") and flags.get("lex_sane", False):
+            sig += "!not-predicted-by-model"
+        elif sig.startswith("logical:") and sig != "logical:plain" and flags.get("shape_free", False):
+            sig += "!not-predicted-by-model"
+    return sig
 
 
 def replay(ctx, obj):
@@ -325,16 +400,23 @@ def case_term(text, obs, facts):
     tok = None
     if facts is not None:
         tok = g_list([g_region((a, b, p)) for (a, b, p, k) in facts.spans])
+    tokl = None
+    if facts is not None and not any(n for (_a, _b, _q, n) in facts.fstrings) and not any(l.strip() == "\\" for l in facts.lines):
+        inside = set()
+        for (a, b) in facts.stmts:
+            inside.update(range(a, b + 1))
+        rng_ = list(facts.stmts) + [(i, i) for i, l in enumerate(facts.lines, 1) if i not in inside and l.strip().startswith("#")]
+        tokl = g_list([g_pair(g_N(a), g_N(b)) for a, b in sorted(rng_)])
     return ("{| c_text := %s; c_alnum := %s; c_space := %s; c_xid := %s; c_regions := %s; c_real := %s; c_nlines := %s;\n"
             "   c_linenos := %s; c_lstarts := %s; c_lends := %s; c_lines := %s; c_custom := %s; c_logical_in := %s;\n"
-            "   c_queries := %s;\n   c_tok_regions := %s |}" % (
+            "   c_queries := %s;\n   c_tok_regions := %s;\n   c_tok_logical := %s |}" % (
                 g_T(text), g_list([g_N(x) for x in alnum]), g_list([g_N(x) for x in space]), g_list([g_N(x) for x in xid]),
                 g_list([g_region(r) for r in obs["regions"]]), g_T(obs["real"]), g_N(ln["length"]),
                 g_list([g_pair(g_N(x), g_N(k)) for x, k in rle(ln["linenos"])]), g_list([g_N(x) for x in ln["starts"]]),
                 g_list([g_N(x) for x in ln["ends"]]), g_list([g_T(x) for x in ln["get_line"]]),
                 g_list([g_pair(g_N(a), g_N(b)) for a, b in obs["custom"]]),
                 g_list([g_pair(g_N(a), g_N(b)) for a, b in obs["logical_in"]]),
-                g_list(qs), g_opt(tok)))
+                g_list(qs), g_opt(tok), g_opt(tokl)))
 
 
 HEADER = ("From Coq Require Import String.\nFrom Coq Require Import List NArith ZArith Bool.\nImport ListNotations.\n"
@@ -343,7 +425,8 @@ HEADER = ("From Coq Require Import String.\nFrom Coq Require Import List NArith 
 CODE_NAMES = {1: "ignored_regions", 2: "real_code", 3: "SourceLinesAdapter.length", 4: "get_line_number",
               5: "get_line_start/get_line_end", 6: "get_line", 7: "custom_generator", 8: "logical_line_in (caching)",
               9: "get_word_at/get_word_range", 10: "get_primary_at/get_primary_range", 11: "model out of fuel",
-              20: "reference lexer vs tokenize", 21: "theorem conclusion fails on the case"}
+              20: "reference lexer vs tokenize", 21: "theorem conclusion fails on the case",
+              22: "reference logical lines vs tokenize", 23: "simulation statement (shape_free -> custom_generator = reference) fails"}
 
 
 def coq_compare(ctx, items):
@@ -361,15 +444,22 @@ def coq_compare(ctx, items):
         bodies.append(cur)
         bounds.append(start)
     files = [HEADER + "Definition cases : list case := %s.\nEval vm_compute in (mismatches cases).\n"
-             "Eval vm_compute in (count_prefix_sane cases).\n" % g_list(b).replace("; {|", ";\n {|") for b in bodies]
+             "Eval vm_compute in (case_flags cases).\nEval vm_compute in (count_lex_sane cases).\n"
+             "Eval vm_compute in (count_shape_free cases).\n" % g_list(b).replace("; {|", ";\n {|") for b in bodies]
     outs = ctx.coq_files_parallel(files)
-    mism, gf = {}, 0
+    mism, gf, sf, flags = {}, 0, 0, {}
     for base, out in zip(bounds, outs):
         pairs = ctx.parse_pairs(out)
         for (i, code) in (pairs[0] if pairs else []):
             mism.setdefault(base + i, []).append(code)
+        for (i, bits) in (pairs[1] if len(pairs) > 1 else []):
+            flags[base + i] = {"lex_sane": bool(bits & 1), "shape_free": bool(bits & 2)}
         nums = ctx.parse_nums(out)
-        gf += nums[-1][0] if nums and nums[-1] else 0
+        gf += nums[-2][0] if len(nums) >= 2 and nums[-2] else 0
+        sf += nums[-1][0] if nums and nums[-1] else 0
+    ctx.extra["cases_in_domain_of_logical_simulation_statement(shape_free and accepted by the reference)"] = \
+        ctx.extra.get("cases_in_domain_of_logical_simulation_statement(shape_free and accepted by the reference)", 0) + sf
+    coq_compare.flags = flags
     return mism, gf
 
 
@@ -445,7 +535,7 @@ def classify_stream(text, facts):
     return "valid" if not fs else "valid+" + "+".join(sorted(fs))
 
 
-def handle_case(ctx, idx, text, obs, facts, codes, origin):
+def handle_case(ctx, idx, text, obs, facts, codes, origin, flags=None):
     """Oracle + correspondence verdicts for one case."""
     replay = {"kind": "text", "text": text, "origin": origin}
     try:
@@ -455,9 +545,10 @@ def handle_case(ctx, idx, text, obs, facts, codes, origin):
     spec_codes = [c for c in codes if c >= 20]
     impl_codes = [c for c in codes if c < 20]
     if fails:
-        ob, loc, msg = fails[0]
+        ob, loc, msg = fails[0][:3]
         cls = OBS_CLASS.get(ob, ob)
-        sig = sig_of(cls, features(text, facts))
+        replay["model_flags"] = dict(flags or {}, model_mismatch=bool(impl_codes))
+        sig = signature(dict(replay))
         if any(f.get("property") == PROPERTY and f.get("signature") == sig for f in ctx.findings):
             ctx.count("oracle_fail_known:" + sig)
             ctx.violation(dict(replay, observable=ob, offset=loc, detail=msg), "known finding " + sig)
@@ -481,12 +572,10 @@ def handle_case(ctx, idx, text, obs, facts, codes, origin):
                                       "coq/Props/C14.v no longer speak about this part of the code" % what),
                           "C14 model/rope mismatch (%s) on %r" % (what, text[:160]), no_input=True)
     for c in spec_codes:
-        if c == 20 and facts is not None and "fnest" in (features(text, facts) or ()):
-            ctx.count("spec:ref_regions_vs_tokenize:fnest(expected, nesting not in the reference)")
-            continue
         ctx.violation(dict(replay, mismatch=CODE_NAMES[c], codes=[c],
                            broken=("the reference lexer ref_regions (spec of C14_regions_are_tokens_partial) differs from CPython's tokenizer"
-                                   if c == 20 else "a proved conclusion evaluates to false on this case: model evaluation and proofs are out of sync")),
+                                   if c == 20 else "the reference logical lines (ref_generator) differ from CPython's tokenizer" if c == 22 else
+                                   "the statement 'shape_free and accepted by the reference -> custom_generator = ref_generator' (validated, not proved) is false on this case" if c == 23 else "a proved conclusion evaluates to false on this case: model evaluation and proofs are out of sync")),
                       "C14 spec problem (%s) on %r" % (CODE_NAMES[c], text[:160]), no_input=True)
 
 
@@ -520,7 +609,7 @@ def run(ctx):
     for _ in range(n_main):
         texts.append((c14_gen.Gen(rng).program(), "grammar"))
     for feat in FEATURES:
-        for _ in range(ctx.scale(6, 40)):
+        for _ in range(ctx.scale(6, 40) * (2 if feat == "fnest" else 1)):
             for _try in range(40):
                 t = c14_gen.Gen(rng, feat=[feat]).program()
                 if len(t) < 1500 and features(t) == {feat}:
@@ -566,7 +655,7 @@ def run(ctx):
     t1 = time.time()
     mism, gf = coq_compare(ctx, items)
     t2 = time.time()
-    ctx.extra["cases_in_domain_of_regions_are_tokens_partial(prefix_sane)"] = gf
+    ctx.extra["cases_in_domain_of_regions_are_tokens_partial(lex_sane)"] = gf
     nvalid = 0
     for idx, ((t, obs, facts), origin) in enumerate(zip(items, meta)):
         stream = classify_stream(t, facts)
@@ -583,7 +672,7 @@ def run(ctx):
             ctx.count("tokenizer_comment_tokens", sum(1 for s in facts.spans if s[3] == "c"))
             ctx.count("tokenizer_statements", len(facts.stmts))
             ctx.count("name_tokens", len(facts.names))
-        handle_case(ctx, idx, t, obs, facts, mism.get(idx, []), origin)
+        handle_case(ctx, idx, t, obs, facts, mism.get(idx, []), origin, flags=getattr(coq_compare, "flags", {}).get(idx))
         if ctx.too_many():
             break
     ctx.extra["valid_texts_checked_against_tokenize"] = nvalid
